@@ -5,7 +5,7 @@
     from NewSentPacketHandler; calls that violate the API contract ([op_valid]) are not executed. *)
 From Coq Require Import List ZArith Bool.
 From V Require Import Gen.Params SentPH.Model SentPH.ProofsHist SentPH.ProofsBase SentPH.ProofsOps2 SentPH.ProofsMain
-  SentPH.ProofsAckRules SentPH.ProofsTimer.
+  SentPH.ProofsAckRules SentPH.ProofsTimer SentPH.ProofsSkipped.
 Import ListNotations.
 Open Scope Z_scope.
 
@@ -83,6 +83,32 @@ Theorem C06_skipped_untouched : forall h pn p pr,
   (forall h', fst (h_declareLost h pn) = h' -> hSkipped h' = hSkipped h).
 Proof. exact skipped_untouched. Qed.
 Print Assumptions C06_skipped_untouched.
+
+(** (c) For ALL histories: a number that was recorded as skipped at some point and is not below every packet
+    still tracked in the application-data space is still recorded at the end ... *)
+Theorem C06_skipped_kept : forall client validated ipn period maxPeriod rnd0 ops n p,
+  0 <= ipn ->
+  let i := init client validated ipn period maxPeriod rnd0 in
+  In p (hSkipped (spH (sApp (run i (firstn n ops))))) ->
+  (exists x, In x (h_list (spH (sApp (run i ops)))) /\ fst x <= p) ->
+  In p (hSkipped (spH (sApp (run i ops)))).
+Proof. exact skipped_kept. Qed.
+Print Assumptions C06_skipped_kept.
+
+(** ... hence a 1-RTT ACK covering ANY number ever skipped that lies at or above the lowest tracked packet is a
+    PROTOCOL_VIOLATION: no callback, bytesInFlight and all spaces unchanged. *)
+Theorem C06_ack_ever_skipped : forall client validated ipn period maxPeriod rnd0 ops n p orc now delay rs,
+  0 <= ipn ->
+  let i := init client validated ipn period maxPeriod rnd0 in
+  let st := run i ops in
+  In p (hSkipped (spH (sApp (run i (firstn n ops))))) ->
+  (exists x, In x (h_list (spH (sApp st))) /\ fst x <= p) ->
+  op_valid st (OAck sph_Enc1RTT now delay rs) = true -> acks_pn rs p = true ->
+  exists st' c, step st (OAck sph_Enc1RTT now delay rs, orc) = (st', c) /\
+  (c = 1 \/ c = 2) /\ sCbs st' = sCbs st /\ sBif st' = sBif st /\
+  sInit st' = sInit st /\ sHs st' = sHs st /\ sApp st' = sApp st.
+Proof. exact ack_ever_skipped. Qed.
+Print Assumptions C06_ack_ever_skipped.
 
 (** Regression (formerly C06_ack_any_skipped_refuted): five PTO expiries skip 1..5 while packet 0 is still
     tracked; all five stay recorded and the ACK {6,1} is now a PROTOCOL_VIOLATION that changes nothing. *)
